@@ -180,7 +180,12 @@ func (f *fixed) GetCode(cidVal cid.CID, text string) (charcode.Code, bool) {
 	if _, ok := f.width[cidVal]; !ok {
 		return 0, false
 	}
-	return f.all[cidVal], true
+	code, ok := f.all[cidVal]
+	if !ok {
+		// the CMap has no code for this CID (possible for CID 0)
+		return 0, false
+	}
+	return code, true
 }
 
 // Width returns the width of the given character code.
